@@ -126,7 +126,7 @@ func TestKnown(t *testing.T)  { kit.RunKnown(t) }
 func TestReplay(t *testing.T) { kit.RunReplay(t) }
 
 func TestQuote(t *testing.T) {
-	kit.Rapid(t, "quote", 400000, 4000000, func(t *rapid.T) {
+	kit.Rapid(t, "quote", 400000, 16000000, func(t *rapid.T) {
 		cfg := rapid.SampledFrom(configs).Draw(t, "cfg")
 		d, class := gen.Doc(t, noTabCR, kit.Pick(30, 80), "d")
 		d = nonBlank(d)
